@@ -73,6 +73,11 @@ def gen(seed, tier="quick"):
         # per-attempt timeout that never fires: sync = the real worker-thread path of
         # _call_with_timeout (the operation returns at once in real time), async = asyncio.wait_for on the SimLoop
         scn["cfg"]["attempt_timeout_us"] = 3_600_000_000
+    if scn["mode"] == "sync" and scn["entry"] != "Policy.noretry" and not scn["cfg"].get("attempt_timeout_us") and r.random() < 0.2:
+        # per-attempt timeout through the simulated single-worker pool (never firing): lets an interruption be
+        # delivered to the thread that WAITS for the attempt while the operation itself is still running
+        scn["cfg"]["attempt_timeout_us"] = 3_600_000_000
+        scn["cfg"]["timeouts_fire"] = True
     if scn["entry"] != "Policy.noretry" and r.random() < 0.12:
         # an on_attempt_end observer that cannot cope with the context of an interrupted (ABORTED) attempt and raises
         # on it: irrelevant to interruptions, which by the statement pass through "at once" -- only the
@@ -230,6 +235,23 @@ def execute(scn):
                 viol.append(V("H1", "base exception plan did not fire", {"tag": tag, "entry": ent}))
                 continue
             check_cancel(scn, cf, viol, ent, tag, trig, trig["obj"], trig["t"])
+    if scn["mode"] == "sync" and scn["cfg"].get("timeouts_fire"):
+        # (c') KeyboardInterrupt / SystemExit delivered by a signal to the waiting thread while attempt n is running
+        for n in range(1, n_att + 1):
+            for x in ("KeyboardInterrupt", "SystemExit"):
+                def mut(v, n=n, x=x):
+                    a = v["calls"][0]["attempts"]
+                    while len(a) < n:
+                        a.append(copy.deepcopy(a[-1]))
+                    a[n - 1] = {"kind": "base", "exc": x, "signal": True, "dur": max(a[n - 1].get("dur", 0), 250_000)}
+                tag = f"signal:{x}@attempt={n}"
+                cf, env = variant(mut, tag)
+                trig = next((e for e in cf.events if e["ev"] == "OP_END" and e["kind"] == "base"), None)
+                if trig is None:
+                    viol.append(V("H1", "signal plan did not fire", {"tag": tag, "entry": ent}))
+                    continue
+                check_cancel(scn, cf, viol, ent, tag, trig, trig["obj"], trig["t"])
+                probes["signal_while_waiting"] = probes.get("signal_while_waiting", 0) + 1
     for j in range(n_sleeps):
         for site in ("sleeper", "sleeper_after"):
             for x in CANCELS:
